@@ -222,6 +222,29 @@ func c14RateStr(c *core.Case, o *core.Outcome) {
 			o.Violate("ratestr-builder:"+s, "constant builder disagrees with ParseRate for %q: %v %+v", s, err, rates)
 			return
 		}
+		// the accepted meaning survives a distribution: over whole units the spread ticks deliver n per unit
+		for _, dist := range []string{"regular", "random"} {
+			dr, derr := constant.CalculateConstantRate(0, s, dist)
+			if derr != nil || dr.IterationDuration <= 0 || unit%dr.IterationDuration != 0 || unit/dr.IterationDuration > 40000 || n > 1_000_000 {
+				continue
+			}
+			per := int(unit / dr.IterationDuration)
+			t0 := time.Unix(1700000000, 0)
+			for u := 0; u < 3; u++ {
+				sum := 0
+				for k := 0; k < per; k++ {
+					sum += dr.Rate(t0.Add(time.Duration(u*per+k) * dr.IterationDuration))
+				}
+				if sum != n {
+					o.Violate("ratestr-distributed:"+s+":"+dist, "rate string %q spells %d per %v; with the %s distribution (tick %v, %d ticks per unit) unit %d delivered %d", s, n, unit, dist, dr.IterationDuration, per, u, sum)
+					return
+				}
+			}
+			o.AddObs("distributed_units_checked", 3)
+			if per > 1 {
+				o.Sig("ratestr:distributed:%s:ticks=%d", dist, per)
+			}
+		}
 		if mutated > 0 {
 			o.Sig("ratestr:accepted-mutated:slash=%v", strings.Contains(s, "/"))
 		} else {
